@@ -91,9 +91,9 @@ func universesFor(ctx *vrun.Ctx, mining bool) []*Universe {
 	if !mining {
 		us = append(us, EvictionBoundary()) // slowest TLC run first
 	}
-	want := map[string]bool{"rbf": true, "orphans": true, "reorg": true}
+	want := map[string]bool{"rbf": true, "orphans": true, "reorg": true, "reorgsmall": true, "locktime": true}
 	if mining {
-		want = map[string]bool{"reorg": true, "mining": true, "sigops": true}
+		want = map[string]bool{"reorg": true, "mining": true, "sigops": true, "retarget": true}
 	}
 	for _, u := range BuiltinUniverses() {
 		if ctx.Thorough || want[u.Name] {
